@@ -107,6 +107,9 @@ def run(tier):
     for bus, t1, t2, xf in ((7, 0.5, 0.6, 0.01), (8, 0.2, 0.45, 0.001)) + (() if quick else ((9, 0.3, 0.4, 0.02), (7, 0.1, 0.35, 0.005))):
         real.append(dict(sid="limits[kundur_full|fault bus %d %g-%g s]" % (bus, t1, t2), case="kundur/kundur_full.json", family="limits", segs=[3.0],
                          events=[dict(add="Fault", bus=bus, tf=t1, tc=t2, xf=xf)], tds=dict(no_tqdm=1, criteria=0)))
+    for ts in (0.05, 0.1) + (() if quick else (0.02, 0.2)):
+        real.append(dict(sid="fixedstep[kundur_full|tstep=%g]" % ts, case="kundur/kundur_full.json", family="fixedstep", segs=[1.0], events=[],
+                         tds=dict(no_tqdm=1, tstep=ts, fixt=1)))
     real.append(dict(sid="limits[ieee14_fault]", case="ieee14/ieee14_fault.json", family="limits", segs=[2.0], events=[], drop_stock_events=False,
                      tds=dict(no_tqdm=1)))
     out = tdsfam.run_and_validate(real, rep, timeout=600, label="failure plans")
